@@ -23,6 +23,14 @@ func runHistory(out *hx.Out, h history, origin string) {
 		addBig(out, runBig(bc, origin))
 		return
 	}
+	if h.Long != nil {
+		addBig(out, runLong(h.Stack, *h.Long, origin))
+		return
+	}
+	if h.ErrSz != nil {
+		addBig(out, runErrSz(h.Stack, *h.ErrSz, origin))
+		return
+	}
 	res := execHistory(h)
 	if os.Getenv("C03_DEBUG") != "" {
 		debugDiffs(h, res)
@@ -294,7 +302,7 @@ func main() {
 	registered = registeredFindings()
 	for _, raw := range hx.LoadCorpus(cfg.Corpus) {
 		var r input
-		if json.Unmarshal(raw, &r) == nil && (len(r.Input.Ops) > 0 || r.Input.Big != nil) {
+		if json.Unmarshal(raw, &r) == nil && (len(r.Input.Ops) > 0 || r.Input.Big != nil || r.Input.Long != nil || r.Input.ErrSz != nil) {
 			runHistory(out, r.Input, "corpus")
 		}
 	}
@@ -307,14 +315,50 @@ func main() {
 	bigCases := genBig(rand.New(rand.NewSource(cfg.Seed+1)), cfg.Thorough())
 	bigDone := make(chan []bigOut, 1)
 	go func() { bigDone <- runBigs(bigCases, "big-grid") }()
+	// so do the long listings and the error-size probes
+	longCases := genLong(rand.New(rand.NewSource(cfg.Seed+2)), cfg.Thorough())
+	errCases := genErrSz(rand.New(rand.NewSource(cfg.Seed+3)), cfg.Thorough())
+	sideDone := make(chan []bigOut, 1)
+	go func() {
+		var jobs []func() bigOut
+		for _, lc := range longCases {
+			jobs = append(jobs, func() bigOut { return runLong(lc.st, lc.in, "long-grid") })
+		}
+		for _, ec := range errCases {
+			jobs = append(jobs, func() bigOut { return runErrSz(ec.st, ec.in, "errsz-grid") })
+		}
+		sideDone <- runJobs(jobs, 3)
+	}()
 	generate(out, rnd, n)
 	for _, b := range <-bigDone {
+		addBig(out, b)
+	}
+	for _, b := range <-sideDone {
 		addBig(out, b)
 	}
 	out.Extra["note"] = fmt.Sprintf("tier=%s seed=%d", cfg.Tier, cfg.Seed)
 	if err := out.Flush(); err != nil {
 		panic(err)
 	}
+}
+
+// runJobs runs the jobs on k goroutines and returns the results in the order of the jobs.
+func runJobs(jobs []func() bigOut, k int) []bigOut {
+	out := make([]bigOut, len(jobs))
+	sem := make(chan struct{}, k)
+	done := make(chan struct{}, len(jobs))
+	for i := range jobs {
+		sem <- struct{}{}
+		go func(i int) {
+			out[i] = jobs[i]()
+			<-sem
+			done <- struct{}{}
+		}(i)
+	}
+	for range jobs {
+		<-done
+	}
+	return out
 }
 
 func generate(out *hx.Out, rnd *rand.Rand, n int) {
